@@ -67,6 +67,8 @@ type World struct {
 	nontriv  bool
 	sample   interface{}
 	sigExtra string
+	// post: checks that must run outside the bubble (real timers), after the run
+	post []func()
 }
 
 // knob draws (or replays) a named integer in [0,n).
@@ -221,6 +223,11 @@ func runOnce(t *testing.T, prop string, tier string, seed int64, rep *ReplayFile
 		return res
 	}
 	s := w.Sim
+	for _, f := range w.post {
+		if !s.failed() {
+			f()
+		}
+	}
 	if s.viol != nil {
 		res.Class, res.Msg, res.Step = s.viol.Class, s.viol.Msg, s.viol.Step
 	}
